@@ -26,6 +26,11 @@ M = [
  ("C07", "spline-deriv2-mid", "spline/__init__.py", None, None),
  ("C07", "lj-deriv2-coef", "potentialfunctions.py", "-168.0*epsilon*sigma**6/r**8", "-186.0*epsilon*sigma**6/r**8"),
  ("C07", "revert-poly-fix", "potentialfunctions.py", "for (i,c) in enumerate(coefs) if i >= 1]", "for (i,c) in enumerate(coefs)][1:]"),
+ ("C10", "shift-and", "spline/__init__.py", "if sy <=0.0 or ey <= 0.0:", "if sy <=0.0 and ey <= 0.0:"),
+ ("C10", "deriv2-mid", "spline/__init__.py", "      return self._inter_point.deriv2_callable(rij)", "      return self._inter_point.deriv_callable(rij)"),
+ ("C10", "detach-lt", "spline/__init__.py", "    if rij <= self.detachmentX:\n      return self.startPotential(rij)", "    if rij < self.detachmentX:\n      return self.startPotential(rij)"),
+ ("C10", "matrix-entry", "spline/__init__.py", "[0.0  , 0.0 , 2.0    , 6.0*ex    , 12.0*ex**2 , 20.0*ex**3]])", "[0.0  , 0.0 , 2.0    , 6.0*ex    , 12.0*ex**2 , 24.0*ex**3]])"),
+ ("C10", "buck4-matrix", "spline/__init__.py", "0, 0   , 0      , 0       , 0        , 0        , 0 , 0     , 2       , 6*r_ap]", "0, 0   , 0      , 0       , 0        , 0        , 0 , 0     , 2       , 3*r_ap]"),
  ("C03", "setfl-nr-minus-1", "eam_tabulation.py", None, None),
 ]
 def main():
